@@ -64,23 +64,53 @@ void* memcpy(void* dst, const void* src, size_t n)
 
 #include "/repo/libyara/arena.c"
 
-/* ---- counting allocator (real mem.c is a thin wrapper around libc) ------ */
+/* ---- allocator over STATIC pools ------------------------------------------
+ * Heap objects make CBMC encode every byte access through its array theory, which
+ * blows up on this function (DESIGN.md A.5); objects handed out from static pools
+ * are field-sensitive and cheap. Each pool slot is handed out once; any allocation
+ * may fail (input bit mask); frees are counted. Use-after-free is therefore NOT
+ * detectable in this harness (stated in the evidence), out-of-bounds accesses are
+ * (every pool slot is a separate static object of the exact size). */
 static int g_live;
-void* yr_malloc(size_t size) { void* p = malloc(size); if (p) g_live++; return p; }
-void* yr_calloc(size_t count, size_t size) { void* p = calloc(count, size); if (p) g_live++; return p; }
+static uint32_t in_fail_mask; static int g_op;
+#define MAYFAIL() ((in_fail_mask >> (g_op++ & 31)) & 1)
+static YR_ARENA pool_arena[1]; static int n_arena;
+static YR_RELOC pool_reloc[3]; static int n_reloc;
+#ifndef SMALL_CAP
+#define SMALL_CAP 16
+#endif
+static uint8_t pool_buf0[SMALL_CAP], pool_buf1[SMALL_CAP]; static int n_buf;
+#ifndef VNATIVE
+void* yr_malloc(size_t size)
+{
+  if (MAYFAIL()) return NULL;
+  __CPROVER_assert(size == sizeof(YR_RELOC) && n_reloc < 3, "harness bound: only relocation records are malloc'ed, at most 3");
+  g_live++;
+  return &pool_reloc[n_reloc++];
+}
+void* yr_calloc(size_t count, size_t size)
+{
+  if (MAYFAIL()) return NULL;
+  __CPROVER_assert(count * size == sizeof(YR_ARENA) && n_arena < 1, "harness bound: one arena");
+  memset(&pool_arena[0], 0, sizeof(YR_ARENA));
+  g_live++;
+  n_arena++;
+  return &pool_arena[0];
+}
 void* yr_realloc(void* ptr, size_t size)
 {
-#ifndef VNATIVE
-  /* in this harness every arena buffer is allocated exactly once */
-  __CPROVER_assert(ptr == NULL, "harness bound: no buffer is grown twice");
-  void* p = malloc(size);
-#else
-  void* p = realloc(ptr, size);
-#endif
-  if (p != NULL && ptr == NULL) g_live++;
-  return p;
+  if (MAYFAIL()) return NULL;
+  __CPROVER_assert(ptr == NULL && size == SMALL_CAP && n_buf < 2, "harness bound: every buffer allocated once, capacity SMALL_CAP");
+  g_live++;
+  return n_buf++ == 0 ? pool_buf0 : pool_buf1;
 }
+void yr_free(void* ptr) { if (ptr) g_live--; }
+#else
+void* yr_malloc(size_t size) { void* p = malloc(size); if (p) g_live++; return p; }
+void* yr_calloc(size_t count, size_t size) { void* p = calloc(count, size); if (p) g_live++; return p; }
+void* yr_realloc(void* ptr, size_t size) { void* p = realloc(ptr, size); if (p != NULL && ptr == NULL) g_live++; return p; }
 void yr_free(void* ptr) { if (ptr) g_live--; free(ptr); }
+#endif
 
 /* ---- arena creation with a small initial capacity ------------------------
  * yr_arena_load_stream asks for 10485-byte buffers; byte arrays of that size
@@ -103,6 +133,35 @@ int vstub_arena_create(uint32_t num_buffers, size_t initial_buffer_size, YR_AREN
   new_arena->num_buffers = num_buffers;
   new_arena->initial_buffer_size = SMALL_CAP;
   *arena = new_arena;
+  return ERROR_SUCCESS;
+}
+
+/* ---- registering a relocation slot ----------------------------------------
+ * yr_arena_load_stream calls yr_arena_make_ptr_relocatable(arena, id, reloc_ref.offset, EOL)
+ * with a 32-bit offset in the variadic part, which _yr_arena_make_ptr_relocatable reads
+ * with va_arg(size_t): a type mismatch (undefined in C, harmless under the x86-64 calling
+ * convention). CBMC reports the 8-byte read of a 4-byte vararg slot and then marks every
+ * later obligation UNKNOWN, so the call is redirected (--replace-calls) to this stub, which
+ * reads the argument with its real type and appends the record exactly as the original
+ * does (same statements as arena.c:88-107). The mismatch is listed as an observation. */
+#include <stdarg.h>
+int vstub_make_ptr_relocatable(YR_ARENA* arena, uint32_t buffer_id, ...)
+{
+  va_list ap;
+  va_start(ap, buffer_id);
+  yr_arena_off_t offset = va_arg(ap, yr_arena_off_t);
+  va_end(ap);
+  YR_RELOC* reloc = (YR_RELOC*) yr_malloc(sizeof(YR_RELOC));
+  if (reloc == NULL)
+    return ERROR_INSUFFICIENT_MEMORY;
+  reloc->buffer_id = buffer_id;
+  reloc->offset = offset;
+  reloc->next = NULL;
+  if (arena->reloc_list_head == NULL)
+    arena->reloc_list_head = reloc;
+  if (arena->reloc_list_tail != NULL)
+    arena->reloc_list_tail->next = reloc;
+  arena->reloc_list_tail = reloc;
   return ERROR_SUCCESS;
 }
 
@@ -192,6 +251,8 @@ void harness(void)
   in_avail = avail;
   g_pos = 0;
   g_live = 0;
+  V_IN(uint32_t, fail_mask);
+  in_fail_mask = fail_mask; g_op = 0;
 
   /* the part of the input space this stand-in covers */
   /* the buffer count is concrete per target (-DNB=0,1,2,17,200): with a symbolic
@@ -255,7 +316,17 @@ void harness(void)
   }
   V_REACH(3);
 
-  /* (c) every relocated slot is inside its buffer and holds NULL or an arena address */
+  /* (c) every relocated slot is inside its buffer and holds NULL or an arena address.
+   * Known finding KF-C17-2 (separate, narrow obligation): two relocation entries whose
+   * 8-byte slots OVERLAP (or coincide) are accepted; converting the second slot then
+   * overwrites part of the pointer stored in the first one. */
+  int overlap = 0;
+  for (YR_RELOC* r = arena->reloc_list_head; r != NULL; r = r->next)
+    for (YR_RELOC* q = r->next; q != NULL; q = q->next)
+      if (q->buffer_id == r->buffer_id &&
+          (q->offset > r->offset ? q->offset - r->offset : r->offset - q->offset) < sizeof(void*))
+        overlap = 1;
+  int all_ok = 1;
   for (YR_RELOC* r = arena->reloc_list_head; r != NULL; r = r->next)
   {
     V_ASSERT(r->buffer_id < arena->num_buffers, "c.slot_buffer_exists");
@@ -266,11 +337,16 @@ void harness(void)
     int ok = (target == NULL);
     for (uint32_t i = 0; i < NBUF_MAX; i++)
       if (i < arena->num_buffers && arena->buffers[i].data != NULL &&
-          (uint8_t*) target >= arena->buffers[i].data &&
-          (uint8_t*) target <= arena->buffers[i].data + arena->buffers[i].used)
+          /* integer comparison of addresses (the slot content is arbitrary) */
+          (uintptr_t) target >= (uintptr_t) arena->buffers[i].data &&
+          (uintptr_t) target <= (uintptr_t) arena->buffers[i].data + arena->buffers[i].used)
         ok = 1;
-    V_ASSERT(ok, "c.slot_holds_null_or_arena_address");
+    if (!ok) all_ok = 0;
   }
+  if (overlap)
+    V_ASSERT(all_ok, "KF2.overlapping_relocation_slots_accepted");
+  else
+    V_ASSERT(all_ok, "c.slot_holds_null_or_arena_address");
 #if KNOWN_K1
   /* (d) narrow: a successfully loaded stream was not cut inside the relocation table */
   V_ASSERT((avail - g_pos) < sizeof(YR_ARENA_REF) && (avail - g_pos) == 0, "d.truncation_in_reloc_section_rejected");
